@@ -1,6 +1,8 @@
 package storegen
 
 import (
+	"math"
+	"strconv"
 	"fmt"
 	"sort"
 	"strings"
@@ -374,10 +376,7 @@ func (r *RefStore) Apply(o Op) Expect {
 			sort.SliceStable(ds, func(i, j int) bool {
 				for f, ord := range o.Sort.Range() {
 					if c := types.Compare(ds[i].Get(f), ds[j].Get(f)); c != 0 {
-						if ord.(interface{ Int() int64 }).Int() < 0 {
-							return c > 0
-						}
-						return c < 0
+						return c*DirOf(ord) < 0 // a direction that decodes to 0: every pair ties, the scan order stays
 					}
 				}
 				return false
@@ -547,4 +546,26 @@ func (e Expect) checkDocs(o Op, got []types.Map) string {
 		}
 	}
 	return ""
+}
+
+// DirOf is the reference reading of a sort direction: the operand decoded as a Go int the way the value codec
+// does it (integers as they are, unsigned ones converted, floats truncated toward zero, strings by strconv.Atoi);
+// an operand that does not decode leaves the default 1. Written from that description, not from store.go.
+// (NaN, ±Inf and floats beyond int64 are implementation-defined in Go and not generated.)
+func DirOf(v types.Value) int {
+	switch x := v.(type) {
+	case types.Int, types.Int8, types.Int16, types.Int32, types.Int64:
+		return int(x.(interface{ Int() int64 }).Int())
+	case types.Uint, types.Uint8, types.Uint16, types.Uint32, types.Uint64:
+		return int(x.(interface{ Uint() uint64 }).Uint())
+	case types.Float32:
+		return int(math.Trunc(float64(x.Interface().(float32))))
+	case types.Float64:
+		return int(math.Trunc(x.Interface().(float64)))
+	case types.String:
+		if n, err := strconv.Atoi(x.String()); err == nil {
+			return n
+		}
+	}
+	return 1
 }
